@@ -117,6 +117,7 @@ def run(res):
             alines.append('ISRESTR|%s|%s' % ('CTL' if logic == 'CTL' else 'CTLS', sexpr(r)))
     alpha = lean_batch(alines)
     bad = 0
+    alpha_bad = 0
     broken = []
     ops = {}
     distinct = set()
@@ -132,7 +133,8 @@ def run(res):
             distinct.add((logic, t))
         if alpha[i].strip() != 'true':
             bad += 1
-            if bad <= 3:
+            alpha_bad += 1
+            if alpha_bad <= 3:
                 res.violation('%s rewriting of %s: output %s uses an operator outside the restricted alphabet'
                               % (logic, tree_str(t), tree_str(r)),
                               {'logic': logic, 'formula': tree_str(t), 'formula_sexpr': sexpr(t), 'impl_restricted': sexpr(r)})
